@@ -105,6 +105,30 @@ class Known:
             self.seen[fid] = self.seen.get(fid, 0) + 1
         return fid
 
+    def match_generated(self, sig, src):
+        """Matchers for documents that are not ranks of a universe (Hypothesis stage).  Deliberately few and
+        narrow: exception call sites, exact coarse signatures of systematic findings, class-suffix sets, and
+        shape predicates (regular expression over the source, optionally tied to a signature prefix)."""
+        import re
+
+        coarse = str(sig).split("#")[0]
+        for e in self.entries:
+            for m in e.get("match", []):
+                k = m.get("kind")
+                ok = False
+                if k == "call_site" and m.get("sig") == coarse:
+                    ok = True
+                elif k == "sig" and m.get("sig") == coarse:
+                    ok = True
+                elif k == "sig_classes_suffix" and coarse and all(c.endswith(m["suffix"]) for c in coarse.split(",")):
+                    ok = True
+                elif k == "shape" and re.search(m["regex"], src) and coarse.startswith(m.get("sig_prefix", "")):
+                    ok = True
+                if ok:
+                    self.seen[e["id"]] = self.seen.get(e["id"], 0) + 1
+                    return e["id"]
+        return None
+
     def match_case(self, key):
         """Exact listed case (histories / configurations / argument shapes): key is a string."""
         for m, fid in self.shapes:
